@@ -184,6 +184,7 @@ EDIT_RULE = {
     "flip_result_null": "surface",
     "toggle_return": "surface",
     "kind_change": "surface",
+    "state_kind_change": "surface",
     "header_add": "surface",
     "header_remove": "surface",
     "header_retype": "surface",
@@ -215,11 +216,15 @@ def apply_edit(spec: dict, edit: dict) -> dict | None:
     ms = s["methods"]
     if not ms:
         return None
-    m = ms[edit.get("m", 0) % len(ms)]
+    eligible = [x for x in ms if _method_eligible(op, x)]
+    if not eligible:
+        return None
+    m = eligible[edit.get("m", 0) % len(eligible)]
     names = {x["name"] for x in ms}
 
     def pick_param() -> dict | None:
-        return m["params"][edit.get("p", 0) % len(m["params"])] if m["params"] else None
+        cands = _eligible_params(op, m)
+        return cands[edit.get("p", 0) % len(cands)] if cands else None
 
     if op == "server_id":
         if edit["value"] == s["server_id"]:
@@ -253,20 +258,25 @@ def apply_edit(spec: dict, edit: dict) -> dict | None:
             if (op == "default_add") == has:
                 return None
             dv = default_for(p["type"], edit.get("variant", 0))
+            if dv is not _NO_DEFAULT and has and p["default"] == dv:
+                dv = default_for(p["type"], edit.get("variant", 0) + 1)
             if dv is _NO_DEFAULT or (has and p["default"] == dv):
                 return None
             p["default"] = dv
         if not defaults_legal(m["params"]):
             return None
     elif op == "rename_method":
-        if edit["value"] in names:
+        new_name = edit["value"] if edit["value"] not in names else edit["value"] + "_2"
+        if new_name in names:
             return None
-        m["name"] = edit["value"]
+        m["name"] = new_name
     elif op == "rename_param":
         p = pick_param()
-        if p is None or edit["value"] in {x["name"] for x in m["params"]}:
+        taken = {x["name"] for x in m["params"]}
+        new_name = edit["value"] if edit["value"] not in taken else edit["value"] + "_2"
+        if p is None or new_name in taken:
             return None
-        p["name"] = edit["value"]
+        p["name"] = new_name
     elif op == "retype_param":
         p = pick_param()
         if p is None:
@@ -326,7 +336,8 @@ def apply_edit(spec: dict, edit: dict) -> dict | None:
     elif op == "kind_change":
         new_kind = edit["kind"]
         if new_kind == m["kind"]:
-            return None
+            order = ["unary", "producer", "exchange", "rawstream", "barestream"]
+            new_kind = order[(order.index(new_kind) + 1) % len(order)]
         m["kind"] = new_kind
         if new_kind == "unary":
             m["ret"] = edit.get("type")
@@ -335,6 +346,11 @@ def apply_edit(spec: dict, edit: dict) -> dict | None:
             m["ret"] = None
             if new_kind == "barestream":
                 m["header"] = None
+    elif op == "state_kind_change":
+        # Stream[ProducerState subclass] <-> Stream[ExchangeState subclass] <-> Stream[raw StreamState subclass]:
+        # only the exchange flag of the description moves (header and params stay)
+        others = [k for k in ("producer", "exchange", "rawstream") if k != m["kind"]]
+        m["kind"] = others[edit.get("p", 0) % 2]
     elif op == "header_add":
         if m["kind"] not in ("producer", "exchange", "rawstream") or m.get("header") is not None:
             return None
@@ -373,9 +389,12 @@ def apply_edit(spec: dict, edit: dict) -> dict | None:
             else:
                 f["type"] = _flip(f["type"])
     elif op == "add_method":
-        if edit["method"]["name"] in names:
+        new_m = copy.deepcopy(edit["method"])
+        if new_m["name"] in names:
+            new_m["name"] += "_2"
+        if new_m["name"] in names:
             return None
-        ms.append(copy.deepcopy(edit["method"]))
+        ms.append(new_m)
     elif op == "remove_method":
         if len(ms) < 2:
             return None
@@ -399,6 +418,50 @@ def apply_edit(spec: dict, edit: dict) -> dict | None:
     else:
         raise ValueError(op)
     return s
+
+
+
+_PARAM_OPS = ("param_doc", "rename_param", "retype_param", "flip_param_null", "remove_param")
+_HEADER_OPS = ("header_remove", "header_retype", "header_rename_field", "header_flip_null", "header_add_field", "header_class_rename")
+
+
+def _eligible_params(op: str, m: dict) -> list[dict]:
+    ps = m["params"]
+    if op == "default_change":
+        return [p for p in ps if "default" in p and default_for(p["type"], 0) is not _NO_DEFAULT]
+    if op == "default_add":
+        # legal only when every later parameter already has a default
+        return [
+            p
+            for i, p in enumerate(ps)
+            if "default" not in p and default_for(p["type"], 0) is not _NO_DEFAULT and all("default" in q for q in ps[i + 1 :])
+        ]
+    if op == "default_remove":
+        # legal only for the first defaulted parameter
+        first = next((p for p in ps if "default" in p), None)
+        return [first] if first is not None else []
+    return list(ps)
+
+
+def _method_eligible(op: str, m: dict) -> bool:
+    kind = m["kind"]
+    if op in _PARAM_OPS:
+        return bool(m["params"])
+    if op in ("default_change", "default_add", "default_remove"):
+        return bool(_eligible_params(op, m))
+    if op == "swap_params":
+        return len(m["params"]) >= 2
+    if op in ("retype_result", "flip_result_null"):
+        return kind == "unary" and m.get("ret") is not None
+    if op == "toggle_return":
+        return kind == "unary"
+    if op == "header_add":
+        return kind in ("producer", "exchange", "rawstream") and m.get("header") is None
+    if op in _HEADER_OPS:
+        return kind != "barestream" and m.get("header") is not None
+    if op in ("state_swap", "state_kind_change"):
+        return kind in ("producer", "exchange", "rawstream")
+    return True
 
 
 _NO_DEFAULT = object()
